@@ -5,11 +5,13 @@ package main
 import (
 	"bytes"
 	"context"
+	"fmt"
 	"os"
 	"os/exec"
 	"path/filepath"
 	"strings"
 	"sync"
+	"sync/atomic"
 	"time"
 )
 
@@ -35,6 +37,7 @@ var solverSpecs = []solverSpec{
 }
 
 var solverSem = make(chan struct{}, 16)
+var queryCounter int64
 
 func parseVerdict(out string) string {
 	for _, line := range strings.Split(out, "\n") {
@@ -55,7 +58,8 @@ func parseVerdict(out string) string {
 // reported as verdict "disagree".
 func RunSolvers(query string, timeoutS int, all bool, workdir string, tag string) SolverResult {
 	os.MkdirAll(workdir, 0o755)
-	file := filepath.Join(workdir, sanitizeFile(tag)+".smt2")
+	n := atomic.AddInt64(&queryCounter, 1)
+	file := filepath.Join(workdir, fmt.Sprintf("%04d-%s.smt2", n, sanitizeFile(tag)))
 	os.WriteFile(file, []byte(query), 0o644)
 	type one struct {
 		name, verdict, out string
